@@ -437,7 +437,7 @@ func main() {
 		bw.Write(line)
 		bw.WriteByte('\n')
 	}
-	nPlan, nFaultPops, nQuery := 120, 6, 40
+	nPlan, nFaultPops, nQuery := 120, 6, 98
 	if *tier == "thorough" {
 		nPlan, nFaultPops, nQuery = 2500, 60, 600
 	}
@@ -612,7 +612,8 @@ func main() {
 
 	// ---- C14: a query paused at a chosen point while a merge advances to a chosen point
 	pauses := []string{"iter#1", "yield#1", "yield#2", "open#1", "open#2", "read#1", "read#3"}
-	mergeTos := []string{"close#1", "update#1", "tombstone#1", "tombstone#2", "done"}
+	// update#2 / update#3 exist only if the merge commits in more than one MetaStore call (otherwise the merge just completes)
+	mergeTos := []string{"close#1", "update#1", "update#2", "tombstone#1", "tombstone#2", "update#3", "done"}
 	for i := 0; i < nQuery; i++ {
 		fs := i%2 == 1
 		w := newWorld(rng, scratch, 200000+id, fs)
